@@ -2,6 +2,7 @@
 (StandardElastoViscoPlasticity*/, StandardElasticity/, DDIF2/): text of each file with the
 jacobian-comparison keywords injected, features for the pairwise-covering sample.  No numpy."""
 import re
+import shutil
 
 import gbx
 import vfcore
@@ -106,3 +107,272 @@ def spec(cfg, crit, pert):
     extra = ["--debug", "--search-path=" + cfg["dir"], "--search-path=" + str(vfcore.REPO / "mfront/tests/properties")]
     return {"slot": "c43-" + cfg["name"].lower(), "name": cfg["name"], "text": t, "fname": cfg["name"] + ".mfront",
             "key": cfg["name"], "extra": extra, "features": cfg["features"], "original": cfg["text"], "dir": cfg["dir"]}
+
+
+# ---------------------------------------------------------------------------------------------
+# Synthesised StandardElastoViscoPlasticity configurations (generated, not harvested): every stress
+# criterion registered in the brick's factory x {associated, non associated with a deviatoric flow
+# criterion, non associated with a non deviatoric one} x {Plastic, Norton, HyperbolicSine} x
+# {no hardening, one isotropic rule, one kinematic rule}.  MPa everywhere (E = 150e3 MPa, yield
+# stress 150 MPa); option values from the harvested files and docs/web (MohrCoulomb.md,
+# StandardElastoViscoPlasticityBrick-PorousPlasticity.md).
+ALIASES = {"Hill1948": "Hill", "Hill 1948": "Hill", "Drucker 1949": "Drucker1949", "Cazacu 2001": "Cazacu2001",
+           "Isotropic Cazacu 2004": "IsotropicCazacu2004", "Orthotropic Cazacu 2004": "OrthotropicCazacu2004",
+           "Hosford1972": "Hosford", "Hosford 1972": "Hosford", "Barlat2004": "Barlat", "Barlat 2004": "Barlat",
+           "GTN": "GursonTvergaardNeedleman1982", "GTN 1982": "GursonTvergaardNeedleman1982",
+           "RousselierTanguyBesson 2002": "RousselierTanguyBesson2002"}
+A6 = "{0.586, 1.05, 0.823, 0.96, 1, 1}"
+B11 = "{1.44, 0.061, -1.302, -0.281, -0.375, 1, 1, 1, 1, 0.445, 1}"
+# canonical name -> (options, orthotropic?, porous?)
+CRITERIA = {
+    "Mises": ("", False, False),
+    "Hosford": ("{a : 6}", False, False),
+    "Drucker1949": ("{c : 1.285}", False, False),
+    "IsotropicCazacu2004": ("{c : -1.056}", False, False),
+    "MohrCoulomb": ("{c : 3.e1, phi : 0.523598775598299, lodeT : 0.506145483078356, a : 1e1}", False, False),
+    "Hill": ("{F : 0.371, G : 0.629, H : 4.052, L : 1.5, M : 1.5, N : 1.5}", True, False),
+    "Barlat": ("{a : 8, l1 : {-0.069888, 0.079143, 0.936408, 0.524741, 1.00306, 1.36318, 0.954322, 1.06906, 1.02377}, "
+               "l2 : {0.981171, 0.575316, 0.476741, 1.14501, 0.866827, -0.079294, 1.40462, 1.1471, 1.05166}}", True, False),
+    "Cazacu2001": ("{a : %s, b : %s, c : 1.285}" % (A6, B11), True, False),
+    "OrthotropicCazacu2004": ("{a : %s, b : %s, c : 1.285}" % (A6, B11), True, False),
+    "GursonTvergaardNeedleman1982": ("{f_c : 0.01, f_r : 0.10, q_1 : 2, q_2 : 1, q_3 : 4}", False, True),
+    "RousselierTanguyBesson2002": ("{qR : 0.89, DR : 2.2}", False, True),
+    "MichelAndSuquet1992HollowSphere": ("{n : 8}", False, True),
+}
+# flow criteria of the non associated variants: (kind, canonical name, options)
+FLOW_CRITERIA = {
+    "deviatoric": ("Mises", ""),
+    "deviatoric-alt": ("Hosford", "{a : 8}"),          # used when the stress criterion is Mises itself
+    "non-deviatoric": ("MohrCoulomb", "{c : 3.e1, phi : 0.174532925199433, lodeT : 0.506145483078356, a : 3e1}"),
+    "non-deviatoric-alt": ("MohrCoulomb", "{c : 3.e1, phi : 0.35, lodeT : 0.506145483078356, a : 2e1}"),
+}
+FLOWS = {
+    "Plastic": "",
+    "Norton": "K : 100, n : 3.2",
+    "HyperbolicSine": "K : 2e4",
+}
+HARDENINGS = ["none", "isotropic", "kinematic"]
+
+
+def registered(kind):
+    """names printed by `mfront --list-<kind>` of the current binary (None when the tool cannot be run)"""
+    import subprocess
+    try:
+        r = vfcore.run([vfcore.tool("plain", "mfront"), "--list-" + kind], timeout=60, env={"LD_LIBRARY_PATH": vfcore.ld_path("plain")})
+    except Exception:  # noqa
+        return None
+    if r.rc != 0:
+        return None
+    out = []
+    for l in r.out.splitlines():
+        m = re.match(r"^- (.*?)\s*(?:\x1b\[\d+m)?\((?:un)?documented\)", l) or re.match(r"^- (\S.*?)\s{2,}", l) or re.match(r"^- (\S.*\S)\s*$", l)
+        if m:
+            out.append(m.group(1).strip())
+    return out
+
+
+def canonical(name):
+    return ALIASES.get(name, name)
+
+
+def synth_text(name, crit, assoc, flow, hard):
+    copt, ortho, porous = CRITERIA[crit]
+    lines = ["criterion : \"%s\" %s" % (crit, copt)]
+    if assoc != "associated":
+        k = assoc + ("-alt" if FLOW_CRITERIA[assoc][0] == crit else "")
+        fn, fo = FLOW_CRITERIA[k]
+        lines.append("flow_criterion : \"%s\" %s" % (fn, fo))
+    if flow == "Plastic":
+        # a yield radius is mandatory; "no hardening" = perfect plasticity
+        lines.append('isotropic_hardening : "Linear" {R0 : 150%s}' % (", H : 2e3" if hard == "isotropic" else ""))
+    elif hard == "isotropic":
+        lines.append('isotropic_hardening : "Linear" {R0 : 50, H : 2e3}')
+    if hard == "kinematic":
+        lines.append('kinematic_hardening : "Armstrong-Frederick" {C : 2.5e4, D : 100}')
+    if FLOWS[flow]:
+        lines.append(FLOWS[flow])
+    body = ",\n    ".join(l.rstrip() for l in lines)
+    t = "@DSL Implicit;\n@Behaviour %s;\n@Description {\n  /verif C43: synthesised brick configuration (%s, %s, %s flow, %s hardening).\n}\n" % (
+        name, crit, assoc, flow, hard)
+    t += "@ModellingHypotheses {@@HYPS@@};\n"
+    if ortho:
+        t += "@OrthotropicBehaviour<Pipe>;\n"
+    t += "@Algorithm NewtonRaphson;\n@Epsilon 1.e-14;\n@Theta 1;\n\n"
+    t += "@Brick StandardElastoViscoPlasticity {\n  stress_potential : \"Hooke\" {young_modulus : 150e3, poisson_ratio : 0.3},\n"
+    t += "  inelastic_flow : \"%s\" {\n    %s\n  }\n};\n" % (flow, body)
+    return t
+
+
+def synthesize():
+    """-> (list of configurations, list of registered criteria that have no parameter set here)"""
+    reg = registered("stress-criteria")
+    crits = list(CRITERIA)
+    unknown = []
+    if reg is not None:
+        unknown = sorted({canonical(n) for n in reg} - set(CRITERIA))
+    out = []
+    for crit in crits:
+        for assoc in ("associated", "deviatoric", "non-deviatoric"):
+            for flow in FLOWS:
+                for hard in HARDENINGS:
+                    name = "VfB_%s_%s_%s_%s" % (crit, {"associated": "A", "deviatoric": "ND", "non-deviatoric": "NN"}[assoc], flow, hard[0].upper())
+                    feats = ["brick=StandardElastoViscoPlasticity", "stress_potential=Hooke", "criterion=" + crit,
+                             "associativity=" + assoc, "inelastic_flow=" + flow, "hardening=" + hard, "synthesised=yes"]
+                    if CRITERIA[crit][1]:
+                        feats.append("symmetry=orthotropic")
+                    out.append({"name": name, "path": None, "dir": str(vfcore.REPO / "mfront/tests/behaviours"),
+                                "text": synth_text(name, crit, assoc, flow, hard), "features": sorted(feats), "synth": True,
+                                "crit": crit, "assoc": assoc, "flow": flow, "hard": hard})
+    return out, unknown
+
+
+SYNTH_HYPS = ["Tridimensional, PlaneStress", "Tridimensional"]
+
+
+def synth_spec(cfg, crit, pert, hyps):
+    t = cfg["text"].replace("@@HYPS@@", hyps)
+    ti = inject(t, crit, pert)
+    extra = ["--debug", "--search-path=" + cfg["dir"]]
+    return {"slot": "c43s-" + cfg["name"].lower(), "name": cfg["name"], "text": ti, "fname": cfg["name"] + ".mfront",
+            "key": cfg["name"], "extra": extra, "features": cfg["features"], "original": t, "dir": cfg["dir"], "synth": True,
+            "hyps": hyps, "cfg": cfg}
+
+
+def covering_sample(harvested, synth, seed=0, forced=()):
+    """quick tier: a sample in which every stress criterion, every flow kind, every nucleation model, every kind of
+    associativity and of hardening of the synthesised space appears at least once (greedy set cover on single feature
+    values, synthesised configurations first, then the harvested ones for the values only they have)"""
+    g = vfcore.rng(seed, "c43-cover")
+    need = set()
+    for c in synth:
+        need |= {f for f in c["features"] if f.split("=")[0] in ("criterion", "associativity", "inelastic_flow", "hardening")}
+    for c in harvested:
+        need |= {f for f in c["features"] if f.split("=")[0] in ("nucleation_model", "inelastic_flow", "stress_potential", "brick")}
+    chosen = [c for c in harvested if c["name"] in forced]
+    covered = set()
+    for c in chosen:
+        covered |= set(c["features"])
+    pool = list(synth) + list(harvested)
+    g.shuffle(pool)
+    # stable preference: synthesised first (they are the smaller files)
+    pool.sort(key=lambda c: 0 if c.get("synth") else 1)
+    while need - covered:
+        best, gain = None, 0
+        for c in pool:
+            if c in chosen:
+                continue
+            gn = len((set(c["features"]) & need) - covered)
+            if gn > gain:
+                best, gain = c, gn
+        if best is None:
+            break
+        chosen.append(best)
+        covered |= set(best["features"])
+    return chosen
+
+
+def screen(ctx, cfgs, crit, pert):
+    """run the generator alone (no compilation) on every synthesised configuration -> (specs accepted, rejected
+    {name: first line of the message}, broken {name: log}: accepted without the comparison keywords but not with them)"""
+    import gen
+    import gbx
+    root = ctx.work / "screen"
+
+    def gen_ok(name, fname, text, extra):
+        d = root / name
+        shutil.rmtree(d, ignore_errors=True)
+        d.mkdir(parents=True)
+        (d / fname).write_text(text)
+        r = gen.generate(d, [fname], ["generic"], extra=extra)
+        shutil.rmtree(d, ignore_errors=True)
+        return r.rc == 0, (r.out + r.err)
+
+    def one(cfg):
+        msg = ""
+        for hyps in SYNTH_HYPS:
+            s = synth_spec(cfg, crit, pert, hyps)
+            ok, log = gen_ok(cfg["name"], s["fname"], s["text"], tuple(s["extra"]))
+            if ok:
+                return cfg, s, None, None
+            if gbx.tool_could_not_start(log):
+                return cfg, None, "tool", log
+            msg = log
+        # rejected with the comparison keywords: is the configuration itself refused?
+        s = synth_spec(cfg, crit, pert, SYNTH_HYPS[-1])
+        ok, log0 = gen_ok(cfg["name"], s["fname"], s["original"], tuple(s["extra"][1:]))
+        if ok:
+            return cfg, None, "broken", msg
+        return cfg, None, "rejected", log0
+    acc, rej, broken = [], {}, {}
+    for cfg, s, why, log in vfcore.pmap(one, cfgs, workers=min(12, vfcore.NCPU)):
+        if s is not None:
+            acc.append(s)
+        elif why == "tool":
+            raise vfcore.HarnessFailure("mfront could not start (build tree being relinked?): %s" % log[-800:])
+        elif why == "broken":
+            broken[cfg["name"]] = log
+        else:
+            lines = [l.strip() for l in log.splitlines() if l.strip() and not l.startswith("Error while treating file")]
+            rej[cfg["name"]] = (lines[-1] if lines else "?")[:200]
+    return acc, rej, broken
+
+
+NON_DEVIATORIC = ("MohrCoulomb", "GursonTvergaardNeedleman1982", "RousselierTanguyBesson2002", "MichelAndSuquet1992HollowSphere")
+UNDRIVABLE = ("DDIF2", "SingleCrystal_DD_FCC")  # need material properties without default values (listed in the evidence)
+
+
+def quick_sample(harvested, accepted, seed=0):
+    """quick tier.  Synthesised space (accepted specs only): for every stress criterion one associated and one non
+    associated configuration, flows and hardenings rotating so that each appears; criteria whose normal is not
+    deviatoric get their non associated configuration with a deviatoric flow criterion and a viscoplastic flow (the
+    combination where the 'deviatoric normal' shortcuts of the jacobian blocks matter).  Harvested files: the ones
+    that bring what the synthesised space does not have (every nucleation model, the other flows and stress
+    potentials, the StandardElasticity brick with an orthotropic stiffness in plane stress)."""
+    g = vfcore.rng(seed, "c43-quick")
+    by = {}
+    for s in accepted:
+        by.setdefault(s["cfg"]["crit"], []).append(s)
+    flows, hards = list(FLOWS), list(HARDENINGS)
+    out = []
+    k = g.randrange(9)
+    for crit in CRITERIA:
+        ss = by.get(crit, [])
+
+        def pick(assocs, flow_pref, hard_pref):
+            for fl in flow_pref:
+                for hd in hard_pref:
+                    for a in assocs:
+                        for s in ss:
+                            c = s["cfg"]
+                            if c["assoc"] == a and c["flow"] == fl and c["hard"] == hd and s not in out:
+                                return s
+            return None
+        fr = [flows[(k + i) % 3] for i in range(3)]
+        hr = [hards[(k // 3 + i) % 3] for i in range(3)]
+        a = pick(["associated"], fr, hr)
+        if crit in NON_DEVIATORIC:
+            visco = [f for f in fr[::-1] if f != "Plastic"] + ["Plastic"]
+            n = pick(["deviatoric", "non-deviatoric"], visco, hr[::-1])
+        else:
+            n = pick(["non-deviatoric", "deviatoric"] if k % 2 else ["deviatoric", "non-deviatoric"], fr[::-1], hr[::-1])
+        out += [x for x in (a, n) if x is not None]
+        k += 4
+    names = ("Test5", "UserDefinedViscoplasticityTest3", "ChuNeedleman1980StrainBasedNucleationModelTest",
+             "ChuNeedleman1980StressBasedNucleationModelTest", "PowerLawStrainBasedNucleationModelTest",
+             "PowerLawStressBasedNucleationModelTest", "HarmonicSumOfNortonHoffViscoplasticFlowsTest", "IsotropicDamageHookeLaw",
+             "PlasticityTest11_na")
+    hv = [c for c in harvested if c["name"] in names]
+    # any nucleation model / flow / stress potential not yet represented
+    have = set()
+    for c in hv:
+        have |= set(c["features"])
+    for s in out:
+        have |= set(s["features"])
+    for c in harvested:
+        if c["name"].startswith(UNDRIVABLE):
+            continue
+        new = {f for f in c["features"] if f.split("=")[0] in ("nucleation_model", "inelastic_flow", "stress_potential")} - have
+        if new:
+            hv.append(c)
+            have |= set(c["features"])
+    return out, hv
